@@ -2,7 +2,7 @@
    format of correspondence cases, and the model replay.  No proofs here. *)
 From Coq Require Import List Arith ZArith NArith Bool.
 From Verif Require Import lib.Wire c02.Model gen.Consts_c02.
-From Verif Require c02.SpecMux.
+From Verif Require c02.SpecMux c02.SpecCW.
 Import ListNotations.
 
 (* constants re-read from /repo's p2p/security/noise/rw.go on every run *)
@@ -154,8 +154,13 @@ Fixpoint first_obs_diff (i : Z) (m x : list obs) : list Z :=
    and monitor, see SpecMux.v *)
 Definition is_mux_case (l : list Z) : bool := match l with k :: _ => k =? 7 | [] => false end.
 
+(* kind 8 = concurrent writers on one Noise session: monitor only (the lock order
+   is not observable), see SpecCW.v *)
+Definition is_cw_case (l : list Z) : bool := match l with k :: _ => k =? 8 | [] => false end.
+
 Definition conform_case (l : list Z) : list Z :=
   if is_mux_case l then SpecMux.conform7 l else
+  if is_cw_case l then [] else
   match decode_case l with
   | None => [ERR_MALFORMED; 0]
   | Some c =>
@@ -166,6 +171,7 @@ Definition conform_case (l : list Z) : list Z :=
 
 Definition monitor_case (l : list Z) : list Z :=
   if is_mux_case l then SpecMux.monitor7 l else
+  if is_cw_case l then SpecCW.monitor8 l else
   match decode_case l with
   | None => [ERR_MALFORMED; 0]
   | Some c =>
